@@ -23,6 +23,7 @@ RULES = {
     "C20.NEUTRAL": "handlers of declared sites append to no canonical stream",
     "C20.CONT": "handlers of declared sites neither return nor raise; final turn record reachable from them",
     "C20.SANIT": "provenance of the GEL block stored into state by the boot loader: only the normaliser's freshly built containers",
+    "C20.BOOT": "guard facts of the boot loader's default-container stores (an idle loader leaves the state's GEL graph alone)",
 }
 
 CORE = "clematis.engine.orchestrator.core"
@@ -230,7 +231,13 @@ def rule_sanit(ctx) -> None:
     n_sets = 0
     for n in sorted(scfg.nodes, key=lambda x: x.id):
         for c in node_calls(n):
-            if call_tail(c) == "_set_state_field" and len(c.args) == 3 and const_str(c.args[1]) in ("graph", "gel"):
+            fields = [const_str(c.args[1])] if (call_tail(c) == "_set_state_field" and len(c.args) == 3 and const_str(c.args[1])) else []
+            if call_tail(c) == "_set_state_field" and len(c.args) == 3 and isinstance(c.args[1], ast.Name):
+                # _set_state_field(state, _field, ...) inside `for _field in ("graph", "gel")`
+                for lp in walk_no_defs(ls.node):
+                    if isinstance(lp, ast.For) and isinstance(lp.target, ast.Name) and lp.target.id == c.args[1].id and isinstance(lp.iter, (ast.Tuple, ast.List)):
+                        fields = [const_str(e) for e in lp.iter.elts if const_str(e)]
+            for fld in [f for f in fields if f in ("graph", "gel")]:
                 n_sets += 1
                 v = c.args[2]
                 ok = False
@@ -241,9 +248,22 @@ def rule_sanit(ctx) -> None:
                     ok = bool(base) and all(d.kind == "assign" and (
                         (isinstance(d.value, ast.Call) and call_tail(d.value) == "_sanitize_gel_for_load") or
                         (isinstance(d.value, ast.Dict) and all(isinstance(x, ast.Dict) and not x.keys for x in d.value.values))) for d in base)
-                ctx.check(ok, "C20.SANIT", f"{ls.qual}/state-{const_str(c.args[1])}-from-normaliser#{n_sets}", ls.loc(c), "state receives an empty block or the normalised block",
-                          f"`{src(v)[:40]}` stored under state.{const_str(c.args[1])} did not come from _sanitize_gel_for_load")
+                ctx.check(ok, "C20.SANIT", f"{ls.qual}/state-{fld}-from-normaliser#{n_sets}", ls.loc(c), "state receives an empty block or the normalised block",
+                          f"`{src(v)[:40]}` stored under state.{fld} did not come from _sanitize_gel_for_load")
     ctx.floor("C20.SANIT", "stores of state.graph / state.gel in the boot loader", n_sets, 4)
+    # an IDLE loader equals a switched-off one: the empty default containers are put on the state only where the state has none -
+    # stored unconditionally they wipe a GEL graph the caller seeded (or an earlier process handed over) on the first turn,
+    # whether the directory is empty or holds an unreadable file, and the hybrid rerank of that turn finds no edges
+    n_def = 0
+    for n in sorted(scfg.nodes, key=lambda x: x.id):
+        for c in node_calls(n):
+            if call_tail(c) == "_set_state_field" and len(c.args) == 3 and isinstance(c.args[2], ast.Dict) and any(const_str(k) == "edges" for k in c.args[2].keys):
+                n_def += 1
+                guarded = any(((not pol) and "isinstance(" in t and "dict" in t) or (pol and t.strip().endswith("is None")) or ((not pol) and t.strip().endswith("is not None")) for t, pol in scfg.facts(n))
+                ctx.check(guarded, "C20.BOOT", ctx.okey(f"{ls.qual}/default-containers-only-where-absent"), ls.loc(c), "the empty GEL containers are stored only where the state has none",
+                          f"`{src(c)[:60]}` overwrites whatever GEL graph the state carries before anything was read: a boot load that loads nothing (empty directory, corrupt file) wipes the graph the "
+                          "first turn runs on - its t2 record (hybrid_used, order) differs from a run with the loader switched off")
+    ctx.floor("C20.BOOT", "default GEL containers stored by the boot loader", n_def, 1)
 
 
 def rule_import_atomic(ctx) -> None:
@@ -422,7 +442,71 @@ def rule_layer_faults_are_whole(ctx) -> None:
     ctx.floor("C20.NEUTRAL", "rerank layers with a flag-resetting handler in apply_quality", n_layers, 2)
 
 
+def rule_boot_body_is_an_object(ctx) -> None:
+    """"corrupt or foreign files": what the boot loader takes from a snapshot file is an OBJECT.  `(data or {})` reads every falsy
+    body (JSON null / false / 0 / "" / [] after an intact header line) as an empty snapshot: the loader reports success and
+    adopts the header's etag as the state's version - the turn's apply records then carry another version than in the run
+    without the file.  Every such coercion of the parsed body lies behind an isinstance(<body>, dict) test."""
+    ls = ctx.func("clematis.engine.snapshot:load_latest_snapshot")
+    cfg = ctx.cfg(ls)
+    bodies = set()
+    for x in walk_no_defs(ls.node):
+        if isinstance(x, ast.Assign) and isinstance(x.value, ast.Call) and call_tail(x.value) == "_read_header_payload" and isinstance(x.targets[0], ast.Tuple) and len(x.targets[0].elts) == 2 \
+                and isinstance(x.targets[0].elts[1], ast.Name):
+            bodies.add(x.targets[0].elts[1].id)
+    if not bodies:
+        raise AnalysisError("anchor-vanished: (header, body) = _read_header_payload(...) in the boot loader")
+    n = 0
+    for nd in cfg.nodes:
+        if nd.ast is None or nd.kind not in ("stmt", "cond"):
+            continue
+        for x in walk_no_defs(nd.ast):
+            if isinstance(x, ast.BoolOp) and isinstance(x.op, ast.Or) and isinstance(x.values[0], ast.Name) and x.values[0].id in bodies and isinstance(x.values[-1], ast.Dict):
+                n += 1
+                b = x.values[0].id
+                known = any(pol and t.replace(" ", "") == f"isinstance({b},dict)" for t, pol in cfg.facts(nd)) or any((not pol) and t.replace(" ", "") == f"notisinstance({b},dict)" for t, pol in cfg.facts(nd))
+                ctx.check(known, "C20.BOOT", ctx.okey(f"{ls.qual}/body-coerced-only-when-an-object"), ls.loc(x), f"`{src(x)}` is evaluated only where the body is known to be an object",
+                          f"`{src(x)}` turns every falsy body (null, false, 0, \"\", []) into an empty snapshot: the loader reports success for a garbage file and adopts the header's etag_to as the state's "
+                          "version - apply.jsonl carries 9, 10, 11 where the run without the file has 1, 2, 3")
+    ctx.floor("C20.BOOT", "coercions of the parsed snapshot body in the boot loader", n, 2)
+
+
+def rule_inputs_of_optional_layers(ctx) -> None:
+    """"a failure inside ... tracing layers never aborts a turn" includes assembling what ONLY such a layer consumes: a local that
+    is used nowhere but as an argument of a declared optional call (the LLM prompt built for the T3 trace) belongs to that
+    layer, and the call that computes it must be fail-soft too (enclosed by a catch-all, or a total callee) - otherwise the
+    turn dies preparing the input of a trace that is gated off."""
+    from ..util import guarded_by_catch_all
+    n = 0
+    by_fn = {}
+    for fq, tails, what in SITES:
+        by_fn.setdefault(fq, set()).update(tails)
+    for fq, tails in sorted(by_fn.items()):
+        fn = ctx.func(fq)
+        site_calls = _call_sites(fn, sorted(tails))
+        inside = {id(y) for c in site_calls for y in ast.walk(c)}
+        for c in site_calls:
+            for a in [x for x in c.args if isinstance(x, ast.Name)] + [k.value for k in c.keywords if isinstance(k.value, ast.Name)]:
+                loads = [y for y in walk_no_defs(fn.node) if isinstance(y, ast.Name) and y.id == a.id and isinstance(y.ctx, ast.Load)]
+                if not loads or not all(id(y) in inside for y in loads):
+                    continue   # the turn itself uses the value
+                for st in walk_no_defs(fn.node):
+                    if isinstance(st, ast.Assign) and any(isinstance(t, ast.Name) and t.id == a.id for t in st.targets) and isinstance(st.value, ast.Call):
+                        r = ctx.prog.callee(fn, st.value)
+                        if not r or r[0] != "func" or r[1] not in ctx.prog.funcs:
+                            continue
+                        n += 1
+                        total, _bad = _func_total(ctx, ctx.prog.funcs[r[1]])
+                        ok = guarded_by_catch_all(ctx.prog, fn, st.value) is not None or total
+                        ctx.check(ok, "C20.ESC", ctx.okey(f"{fn.qual}/input-of-optional-layer-guarded:{a.id}"), fn.loc(st), f"`{src(st)[:60]}` (consumed by `{call_tail(c)}` only) is fail-soft",
+                                  f"`{src(st)[:60]}` computes a value that only the optional `{call_tail(c)}` consumes, outside every guard: a shape that call trips over (a chat-history entry that is a plain "
+                                  "string) aborts the turn after t1 / t2 were logged - no t4 / apply / turn records - although the layer it serves is optional (and gated off)")
+    ctx.floor("C20.ESC", "values computed only for an optional layer", n, 1)
+
+
 def run(ctx) -> None:
+    rule_inputs_of_optional_layers(ctx)
+    rule_boot_body_is_an_object(ctx)
     rule_layer_faults_are_whole(ctx)
     rule_boot_once(ctx)
     rule_handler_names(ctx)
